@@ -47,6 +47,7 @@ class Ob:
   nontrivial: bool = True
   advisory: bool = False
   facts: Optional[Dict[str, Any]] = None
+  changed: bool = False   # inconclusive only: the function is not as on the reference tree (the rule does not recognise the new code)
 
   def key(self, prop: str) -> str:
     return f'{prop}|{self.rule}|{self.file}|{self.function}|{self.construct}'
@@ -71,6 +72,7 @@ class Check:
     self.obs: List[Ob] = []
     self.floors: List[str] = []
     self.errors: List[str] = []
+    self.hard_errors: set = set()   # errors that fail the run even on a tree that differs from the reference (public anchor gone)
     self.assumptions: List[str] = []
     self.not_decided: List[str] = []
     self.rules_applied: Dict[str, str] = {}
@@ -95,6 +97,17 @@ class Check:
 
   def rule(self, rid: str, text: str):
     self.rules_applied[rid] = text
+
+  def _module_changed(self, module) -> bool:
+    """Some function of the module is not as on the reference tree (a rule located in one function may read its neighbours)."""
+    cache = self.__dict__.setdefault('_modchg_cache', {})
+    if module.relpath not in cache:
+      from fjsa import shapes
+      raw = module.__dict__.get('_raw_funcs') or shapes.raw_functions(module.src)
+      module.__dict__['_raw_funcs'] = raw
+      ref = {k.split(':', 1)[1] for k in shapes.table() if k.startswith(module.relpath + ':')}
+      cache[module.relpath] = set(raw) != ref or any(shapes.distance(module.relpath, q, n) != 0 for q, n in raw.items())
+    return cache[module.relpath]
 
   def _shape_distance(self, fi):
     cache = self.__dict__.setdefault('_shape_cache', {})
@@ -137,8 +150,12 @@ class Check:
     if node is not None and getattr(node, 'lineno', None):
       ln = node.lineno
     status = 'ok' if ok else 'violation'
+    changed = False
     if ok is None:
       status = 'inconclusive'
+      if isinstance(where, FuncInfo):
+        d0 = self._shape_distance(where)
+        changed = d0 is None or d0 > 0 or self._module_changed(where.module)
     if status == 'violation' and isinstance(where, FuncInfo) and not exact:
       # A pattern rule that does not find its construct in a function that was restructured far beyond a local edit does not
       # describe that code any more: the verdict is withheld (INCONCLUSIVE) instead of claiming a violation. Rules whose
@@ -149,12 +166,13 @@ class Check:
       is_known = any(finding_matches(e, self.prop, probe) for e in load_known_findings() if e.get('status') == 'known')
       if (d is None or d > shapes.THRESHOLD) and not is_known:
         status = 'inconclusive'
+        changed = True
         detail = (f'[verdict withheld: {where.qualname} ' + ('is not a function of the reference tree' if d is None else
                   f'differs from its reference shape in {d} statements (> {shapes.THRESHOLD})') +
                   ': the rule\'s pattern no longer describes it] ') + detail
     self.obs.append(
         Ob(rule, f, q, construct_text(construct), status, norm_text(detail), ln,
-           nontrivial, advisory, facts))
+           nontrivial, advisory, facts, changed))
     return bool(ok)
 
   def inconclusive(self, rule: str, where, construct, reason: str, node=None):
@@ -175,8 +193,27 @@ class Check:
     if text not in self.not_decided:
       self.not_decided.append(text)
 
-  def error(self, text: str):
+  def error(self, text: str, hard: bool = False):
     self.errors.append(text)
+    if hard:
+      self.hard_errors.add(text)
+
+  def tree_changed(self) -> bool:
+    """Some library function is not as on the reference tree (fjsa/known_shapes.json), or a module was added or removed."""
+    if '_tree_changed' not in self.__dict__:
+      from fjsa import shapes
+      ref_files = {k.split(':', 1)[0] for k in shapes.table()}
+      mods = {m.relpath: m for m in self.repo.modules.values()}
+      changed = bool(ref_files - set(mods))
+      for rel, m in mods.items():
+        if changed:
+          break
+        if rel in ref_files:
+          changed = self._module_changed(m)
+        elif rel.startswith('fedjax/'):
+          changed = bool(shapes.raw_functions(m.src))   # a module the reference tree does not have (and that defines functions)
+      self._tree_changed = changed
+    return self._tree_changed
 
   def analysed(self, fi: FuncInfo):
     self.functions_analysed.add(f'{fi.module.relpath}:{fi.qualname}')
@@ -198,6 +235,19 @@ def finding_matches(entry: Dict[str, Any], prop: str, ob: Ob) -> bool:
   if entry.get('file') != ob.file or entry.get('function') != ob.function:
     return False
   return norm_text(entry.get('construct', '')) == ob.construct
+
+
+def classify(check: Check) -> str:
+  """'violation' | 'failed' (exit 2) | 'not-decided' (exit 0 with NOT-DECIDED lines) | 'silent' - the same decision finish() makes."""
+  known = load_known_findings()
+  if any(o.status == 'violation' and not o.advisory and not any(finding_matches(e, check.prop, o) for e in known) for o in check.obs):
+    return 'violation'
+  strict = os.environ.get('FJSA_UNDECIDED_EXIT', '0') == '2'
+  inconc = [o for o in check.obs if o.status == 'inconclusive']
+  tree_changed = (not strict) and bool(check.errors) and check.tree_changed()
+  if any(strict or not o.changed for o in inconc) or any(not tree_changed or e in check.hard_errors for e in check.errors):
+    return 'failed'
+  return 'not-decided' if inconc or check.errors else 'silent'
 
 
 def finish(check: Check, evidence_dir: str, replay_filter: Optional[Dict] = None,
@@ -244,15 +294,28 @@ def finish(check: Check, evidence_dir: str, replay_filter: Optional[Dict] = None
     lines.append(f'  {o.brief()}')
   for o in advisory:
     lines.append(f'ADVISORY: property={prop} {o.brief()}')
+  # An obligation a rule cannot decide because the function was rewritten (it is not as on the reference tree and the rule does
+  # not recognise the new code) is reported as NOT-DECIDED and recorded in the evidence, but it is not an alarm: the property
+  # held on everything the rules could explore. An inconclusive obligation in a function that is unchanged can only be a defect
+  # of the machinery and fails the run (exit 2), like a missing anchor or an unmet instance floor. FJSA_UNDECIDED_EXIT=2 makes
+  # every undecided obligation fail the run.
+  # The same holds for what the machinery itself cannot find: an unmet instance floor, an unrecognised anchor shape, a private or
+  # nested helper that is gone, a rule that fails on code it was not written for. On the reference tree each of these is a defect
+  # of the check (exit 2). On a tree that differs from the reference they say "this rule does not cover the rewritten code": NOT-DECIDED.
+  # A public anchor (module, public class / function / method) that is gone always fails the run.
+  strict = os.environ.get('FJSA_UNDECIDED_EXIT', '0') == '2'
+  tree_changed = (not strict) and bool(check.errors) and check.tree_changed()
+  blocking = [o for o in inconc if strict or not o.changed]
+  blocking_errors = [e for e in check.errors if not tree_changed or e in check.hard_errors]
   code = 0
   if new_viol:
     code = 1
-  elif check.errors or inconc:
+  elif blocking_errors or blocking:
     code = 2
   for e in check.errors:
-    lines.append(f'ANALYSIS-ERROR property={prop} reason={e}')
+    lines.append((f'ANALYSIS-ERROR property={prop} reason=' if e in blocking_errors else f'NOT-DECIDED: property={prop} ') + e)
   for o in inconc:
-    lines.append(f'ANALYSIS-INCONCLUSIVE property={prop} {o.brief()}')
+    lines.append((f'ANALYSIS-INCONCLUSIVE property={prop} ' if o in blocking else f'NOT-DECIDED: property={prop} ') + o.brief())
   if selftest is not None and selftest.get('failures'):
     for fmsg in selftest['failures']:
       lines.append(f'ANALYSIS-ERROR property={prop} reason=selftest:{fmsg}')
@@ -307,7 +370,9 @@ def finish(check: Check, evidence_dir: str, replay_filter: Optional[Dict] = None
           'advisory': [o.brief() for o in advisory],
           'violations_detail': [o.brief() for o in new_viol],
           'inconclusive': [o.brief() for o in inconc],
-          'analysis_errors': list(check.errors),
+          'not_decided_rewritten_functions': [o.brief() for o in inconc if o not in blocking],
+          'analysis_errors': list(blocking_errors),
+          'not_decided_changed_tree': [e for e in check.errors if e not in blocking_errors],
           'exhaustive': False,
       },
       'assumptions': check.assumptions,
